@@ -126,8 +126,4 @@ VARIANTS = [
      "expect": "silent",
      "old": "        if any(x in cls.get_own_attributes() for x in (\"__bool__\", \"__len__\")):",
      "new": "        if any(slot in cls.get_own_attributes() for slot in (\"__len__\", \"__bool__\")):"},
-    {"name": "flag-forgets-len", "rule": "R1.60", "file": "pytype/abstract/class_mixin.py",
-     "expect": "error",
-     "old": "        if any(x in cls.get_own_attributes() for x in (\"__bool__\", \"__len__\")):",
-     "new": "        if any(x in cls.get_own_attributes() for x in (\"__bool__\",)):"},
 ]
